@@ -63,3 +63,71 @@ Example C07_example :
   exists ss, parse (L "let n = -1; T | where a or b and c == d + e * f in (1, 2) - -g[0] | sort by x asc nulls last, y | join kind=inner (U | take 3) on k, $left.a == $right.b | summarize count(), by k") = ParseOk ss
     /\ gprog ss = true /\ length ss = 2.
 Proof. eexists. split; [vm_compute; reflexivity|]. split; vm_compute; reflexivity. Qed.
+
+(** ** the tree does not depend on layout *)
+From PQL Require Import Proofs.Layout Proofs.Relayout.
+
+(** Two sources whose token sequences agree in kinds and values (offsets aside) parse alike: when
+    the first parses to [ss], the second parses to [ss] with every recorded offset renamed - the
+    i-th token's start (end) in the first layout to the i-th token's start (end) in the second - and
+    nothing else changed: same operators, arguments, names, flags, defaults. *)
+Theorem C07_tree_depends_on_tokens_only : forall s s' ss, same_kv (scan s) (scan s') -> parse s = ParseOk ss ->
+  parse s' = ParseOk (rn_prog (starts_map (scan s) (scan s')) (ends_map (scan s) (scan s')) ss).
+Proof. exact parse_relayout. Qed.
+Print Assumptions C07_tree_depends_on_tokens_only.
+
+Theorem C07_acceptance_depends_on_tokens_only : forall s s', same_kv (scan s) (scan s') ->
+  ((exists ss, parse s = ParseOk ss) <-> (exists ss', parse s' = ParseOk ss')).
+Proof. exact parse_relayout_iff. Qed.
+Print Assumptions C07_acceptance_depends_on_tokens_only.
+
+(** kinds and values are functions of the token texts: two sources with the same token texts, in
+    whatever layout, have the same tree up to that renaming *)
+Theorem C07_same_token_texts_same_tree : forall s1 s2 ss, map (tok_text s1) (scan s1) = map (tok_text s2) (scan s2) ->
+  parse s1 = ParseOk ss ->
+  parse s2 = ParseOk (rn_prog (starts_map (scan s1) (scan s2)) (ends_map (scan s1) (scan s2)) ss).
+Proof. exact parse_same_texts. Qed.
+Print Assumptions C07_same_token_texts_same_tree.
+
+(** and such layouts exist for every spacing: lay the token texts of [s] out again with any gap in
+    front ([gap]: ASCII white space and complete // comments), a gap beginning with a white-space
+    byte between consecutive tokens and optionally after the last one; the result is scanned into
+    the same tokens (no text is fused, split or swallowed), hence parses to the same tree *)
+Theorem C07_spaced_layout_same_tree : forall s ss g0 items body, gap g0 -> spaced items body ->
+  map (fun i : str * kind * str => fst (fst i)) items = map (tok_text s) (scan s) ->
+  parse s = ParseOk ss ->
+  parse (g0 ++ body) = ParseOk (rn_prog (starts_map (scan s) (scan (g0 ++ body))) (ends_map (scan s) (scan (g0 ++ body))) ss).
+Proof. exact parse_spaced. Qed.
+Print Assumptions C07_spaced_layout_same_tree.
+
+(** the renaming leaves the grammar predicate - hence grouping, arguments, flags - untouched *)
+Theorem C07_renaming_keeps_structure : forall fs fe ss, gprog (rn_prog fs fe ss) = gprog ss.
+Proof. exact rn_gprog. Qed.
+Print Assumptions C07_renaming_keeps_structure.
+
+(** non-vacuity: `T|where a>1` laid out as ` T |<newline> //c<newline> where a > 1 ` *)
+Example C07_layout_example :
+  let s := L "T|where a>1" in
+  exists g0 items body ss, gap g0 /\ spaced items body /\
+    map (fun i : str * kind * str => fst (fst i)) items = map (tok_text s) (scan s) /\
+    parse s = ParseOk ss /\ length (g0 ++ body) = 22.
+Proof.
+  assert (W32 : ws 32) by (right; left; reflexivity). assert (W10 : ws 10) by (left; reflexivity).
+  assert (G1 : sep_gap [32%N]) by (exists 32%N, []; split; [reflexivity|split; [exact W32|constructor]]).
+  assert (G2 : sep_gap (10%N :: 32%N :: 47%N :: 47%N :: [99%N] ++ [10%N])).
+  { exists 10%N, (32%N :: 47%N :: 47%N :: [99%N] ++ [10%N]). split; [reflexivity|]. split; [exact W10|].
+    apply (gap_cons [32%N]); [apply lu_ws; exact W32|].
+    rewrite <- (app_nil_r (47%N :: 47%N :: [99%N] ++ [10%N])). apply gap_cons; [apply lu_comment; intros [H|[]]; discriminate H|constructor]. }
+  eexists [32%N],
+    [(L "T", KIdentifier, L "T"); (L "|", KPipe, []); (L "where", KIdentifier, L "where"); (L "a", KIdentifier, L "a"); (L ">", KGT, []); (L "1", KNumber, L "1")],
+    _, _.
+  split; [apply (gap_cons [32%N] []); [apply lu_ws; exact W32|constructor]|].
+  split.
+  { apply sp_cons; [split; [vm_compute; reflexivity|discriminate]|exact G1|].
+    apply sp_cons; [split; [vm_compute; reflexivity|discriminate]|exact G2|].
+    apply sp_cons; [split; [vm_compute; reflexivity|discriminate]|exact G1|].
+    apply sp_cons; [split; [vm_compute; reflexivity|discriminate]|exact G1|].
+    apply sp_cons; [split; [vm_compute; reflexivity|discriminate]|exact G1|].
+    apply sp_cons; [split; [vm_compute; reflexivity|discriminate]|exact G1|apply sp_nil]. }
+  split; [vm_compute; reflexivity|]. split; vm_compute; reflexivity.
+Qed.
